@@ -88,7 +88,18 @@ class Ranges:
         res = None
         for pt, k, s in ds:
             if k != 'assign':
-                return t
+                # call of a crate-local function: the (context-insensitive) range of what it returns
+                c = s.get('callee') if k == 'call' else None
+                cb = self.b.facts.body(c.get('resolved') or c['path']) if (c and self.b.facts is not None) else None
+                if cb is None or cb.key == self.b.key or cb.key in getattr(self, '_callstack', ()):
+                    return t
+                sub = Ranges(cb)
+                sub._callstack = getattr(self, '_callstack', ()) + (self.b.key,)
+                r = sub.of_local(0)
+                if r is None:
+                    return t
+                res = r if res is None else (min(res[0], r[0]), max(res[1], r[1]))
+                continue
             r = self.of_rvalue(s['r'], stack + (l,))
             if r is None:
                 return t
